@@ -208,6 +208,33 @@ def extract(ctx):
         path.write_text(text)
 
 
+def guarded(ctx, label, fn, *args, **kw):
+    """Run one case.  An exception raised INSIDE funsor (innermost frame under the funsor package, or numpy called from
+    it) on one case is a decline: counted, the run continues.  An exception whose innermost frame is in this harness
+    is a harness bug and propagates (infrastructure error)."""
+    import traceback
+    try:
+        return fn(*args, **kw)
+    except Exception as e:  # noqa: BLE001
+        frames = traceback.extract_tb(e.__traceback__)
+        here = os.path.abspath(__file__)
+        inner_funsor = False
+        for fr in reversed(frames):
+            fnm = os.path.abspath(fr.filename)
+            if fnm == here:
+                break
+            if os.sep + "funsor" + os.sep in fnm:
+                inner_funsor = True
+                break
+        if not inner_funsor:
+            raise
+        ctx.count(f"{label}:funsor-exception:{type(e).__name__}")
+        ex = ctx.extra.setdefault("funsor_exceptions", [])
+        if len(ex) < 5:
+            ex.append(f"{label}: {type(e).__name__}: {str(e)[:200]} at {frames[-1].filename}:{frames[-1].lineno}")
+        return None
+
+
 # --------------------------------------------------------------------------------------
 # RNG stub
 # --------------------------------------------------------------------------------------
@@ -1015,7 +1042,7 @@ def rounding_stream(ctx, use_driver=True):
     inputs, uniforms exactly 0.0 and in the top ulps of [0,1): out-of-range index / wrap-around /
     trailing zero cell must not be selected."""
     rng = ctx.rng
-    n = 40 if ctx.tier == "quick" else 1200
+    n = 40 if ctx.tier == "quick" else 800
     for _ in range(n):
         sizes = rng.choice([[4], [4], [3, 4], [4, 4], [4, 4, 3], [4, 4, 4], [2, 4]])
         k = len(sizes)
@@ -1042,12 +1069,12 @@ def rounding_stream(ctx, use_driver=True):
         if rng.random() < 0.5:
             c["sample_inputs"] = []
         ctx.count("sample:rounding-stream")
-        check_sample_case(ctx, c, use_driver=use_driver)
+        guarded(ctx, "rounding", check_sample_case, ctx, c, use_driver=use_driver)
 
 
 def sample_streams(ctx, use_driver=True):
     rng = ctx.rng
-    reps = 1 if ctx.tier == "quick" else 8
+    reps = 1 if ctx.tier == "quick" else 5
     # every shape over 1-3 inputs of sizes 1-4, every non-empty subset of sampled variables
     for k in (1, 2, 3):
         for sizes in itertools.product([1, 2, 3, 4], repeat=k):
@@ -1057,14 +1084,14 @@ def sample_streams(ctx, use_driver=True):
                         if ctx.tier == "quick" and k == 3 and rng.random() < 0.5:
                             continue        # quick tier: every 1-2 input shape, half of the 3-input ones
                         c = gen_sample_case(rng, sizes=list(sizes), sampled=list(sub))
-                        check_sample_case(ctx, c, use_driver=use_driver)
-    n = 100 if ctx.tier == "quick" else 3000
+                        guarded(ctx, "sample", check_sample_case, ctx, c, use_driver=use_driver)
+    n = 100 if ctx.tier == "quick" else 2000
     for _ in range(n):
-        check_sample_case(ctx, gen_sample_case(rng), use_driver=use_driver)
+        guarded(ctx, "sample", check_sample_case, ctx, gen_sample_case(rng), use_driver=use_driver)
     n = 90 if ctx.tier == "quick" else 1500
     for _ in range(n):
         c = gen_sample_case(rng)
-        law_case(ctx, c, M=64)
+        guarded(ctx, "law", law_case, ctx, c, M=64)
 
 
 # --------------------------------------------------------------------------------------
@@ -1864,17 +1891,17 @@ GATED_UNIT_ONLY = ("mass", "integrate-1", "integrate-h")
 
 def delta_streams(ctx, use_driver=True):
     rng = ctx.rng
-    n = 200 if ctx.tier == "quick" else 4000
+    n = 200 if ctx.tier == "quick" else 2500
     for _ in range(n):
-        delta_eval_case(ctx, gen_delta_case(rng), use_driver=use_driver)
+        guarded(ctx, "delta-eval", delta_eval_case, ctx, gen_delta_case(rng), use_driver=use_driver)
     for _ in range(n):
-        delta_reduce_case(ctx, use_driver=use_driver)
+        guarded(ctx, "delta-reduce", delta_reduce_case, ctx, use_driver=use_driver)
     for _ in range(110 if ctx.tier == "quick" else 1500):
-        delta_multi_case(ctx, use_driver=use_driver)
+        guarded(ctx, "delta-multi", delta_multi_case, ctx, use_driver=use_driver)
     for _ in range(60 if ctx.tier == "quick" else 1000):
-        delta_joint_case(ctx)
-    for _ in range(160 if ctx.tier == "quick" else 3000):
-        delta_arith_case(ctx)
+        guarded(ctx, "delta-joint", delta_joint_case, ctx)
+    for _ in range(160 if ctx.tier == "quick" else 2000):
+        guarded(ctx, "delta-arith", delta_arith_case, ctx)
 
 
 # --------------------------------------------------------------------------------------
@@ -2122,7 +2149,7 @@ def replay_gauss(case):
 def gauss_streams(ctx):
     n = 90 if ctx.tier == "quick" else 1500
     for _ in range(n):
-        check_gauss_case(ctx, gen_gauss_case(ctx.rng))
+        guarded(ctx, "gauss", check_gauss_case, ctx, gen_gauss_case(ctx.rng))
 
 
 # --------------------------------------------------------------------------------------
@@ -2346,9 +2373,9 @@ def check_mixture_case(ctx, c):
 
 
 def mixture_streams(ctx):
-    n = 150 if ctx.tier == "quick" else 2500
+    n = 150 if ctx.tier == "quick" else 2000
     for _ in range(n):
-        check_mixture_case(ctx, gen_mixture_case(ctx.rng))
+        guarded(ctx, "mixture", check_mixture_case, ctx, gen_mixture_case(ctx.rng))
 
 
 # --------------------------------------------------------------------------------------
@@ -2607,7 +2634,7 @@ def check_mc_case(ctx, c):
 def mc_streams(ctx):
     n = 120 if ctx.tier == "quick" else 1500
     for _ in range(n):
-        check_mc_case(ctx, gen_mc_case(ctx.rng))
+        guarded(ctx, "mc", check_mc_case, ctx, gen_mc_case(ctx.rng))
 
 
 # --------------------------------------------------------------------------------------
@@ -2890,7 +2917,7 @@ def check_pre_case(ctx, c):
 def pre_streams(ctx):
     n = 70 if ctx.tier == "quick" else 1200
     for _ in range(n):
-        check_pre_case(ctx, gen_pre_case(ctx.rng))
+        guarded(ctx, "pre", check_pre_case, ctx, gen_pre_case(ctx.rng))
 
 
 # --------------------------------------------------------------------------------------
@@ -2920,7 +2947,7 @@ def radix_box(ctx):
 def correspond(ctx):
     ctx.rule = (
         "Tensor.sample: every shape over 1-3 inputs of sizes 1-4 x every non-empty subset of sampled variables "
-        "(thorough: 8 data draws each; quick: all 1-2 input shapes, half of the 3-input ones) + random cases; weights in {0,1/4,1/2,1,2,3,4} (0 = -inf logit) incl. {0,1} "
+        "(thorough: 5 data draws each; quick: all 1-2 input shapes, half of the 3-input ones) + random cases; weights in {0,1/4,1/2,1,2,3,4} (0 = -inf logit) incl. {0,1} "
         "tensors and all-zero rows; 0-2 sample inputs (sizes 1-3, sometimes named like an existing input); uniforms "
         "chosen by the harness through a stub of numpy.random.rand, over its whole range [0,1): exactly 0.0, 2^-60, "
         "0.5, 1-k*2^-53 (k=1..8), a coarse grid, exact CDF boundaries (dyadic rows), boundary +-1e-6/1e-4, seeded "
